@@ -10,6 +10,8 @@
 -/
 import SA.Props.C14
 import SA.Proofs.Socks
+import SA.Proofs.ReadAhead
+import SA.Gen.C17ReadAhead
 import SA.Gen.PkgVars
 namespace SA.Pipe
 
@@ -417,3 +419,43 @@ end SA.PkgState
 
 #print axioms SA.PkgState.C17_no_hidden_process_state
 #print axioms SA.Socks.C17_mux_timing_is_default
+
+namespace SA.ReadAhead
+/-- **selection_loses_nothing**: the server selects the channel through a buffered reader that takes whole chunks from
+    the logical stream.  For EVERY way the stream is cut into chunks (in particular: selection tokens and payload in one
+    chunk — a peer that does not wait for the server's confirmation) and every token length k the stream holds, the k
+    bytes the selection consumed followed by what the handler then reads through the wrapper are exactly the stream:
+    the target is handed every payload byte, in order, whatever the wrapper read ahead. -/
+theorem C17_selection_loses_nothing (k : Nat) (cs : List (List Nat)) (h : k ≤ cs.flatten.length) :
+    ∃ tokens, tokens.length = k ∧ tokens ++ viaWrapper k cs = cs.flatten := by
+  refine ⟨(take k (BR.ofChunks cs)).1, ?_, ?_⟩
+  · exact take_length k _ (by simpa [BR.ofChunks, BR.remaining] using h)
+  · simpa [viaWrapper, BR.ofChunks, BR.remaining] using take_remaining k (BR.ofChunks cs)
+
+/-- the number of bytes the target is handed does not depend on the chunking -/
+theorem C17_target_count_chunking_independent (k : Nat) (cs : List (List Nat)) (h : k ≤ cs.flatten.length) :
+    (viaWrapper k cs).length = cs.flatten.length - k := by
+  obtain ⟨t, ht, he⟩ := C17_selection_loses_nothing k cs h
+  have := congrArg List.length he
+  simp only [List.length_append] at this
+  omega
+
+/-- witness: handing the channel handler the stream BELOW the wrapper loses what the wrapper read ahead (three token
+    bytes and two payload bytes in one chunk: the target gets nothing), while through the wrapper it gets both -/
+theorem C17_witness_bare_stream_loses_read_ahead :
+    viaStream 3 [[1, 2, 3, 4, 5]] = [] ∧ viaWrapper 3 [[1, 2, 3, 4, 5]] = [4, 5] := by
+  simp [viaStream, viaWrapper, take, BR.ofChunks, BR.remaining]
+
+/-- the code hands the handler the wrapper: the muxer's only `Handle` call in multiplexToUpstream gets
+    `newClientFirstConn(stream)`, selection is never separated from the handler call (`Negotiate`), and the wrapper's
+    `Read` reads from its buffered reader, which is built over the stream (regenerated) -/
+theorem C17_handler_reads_through_wrapper :
+    Gen.c17MuxHandleArgs = ["newClientFirstConn(multiplexChannel)"] ∧ Gen.c17MuxNegotiateCalls = 0 ∧
+    Gen.c17WrapperReadsFrom = "c.reader.Read(p)" ∧
+    Gen.c17WrapperReader = "bufio.NewReaderSize(conn,buffers.BufferSize)" := by decide
+end SA.ReadAhead
+
+#print axioms SA.ReadAhead.C17_selection_loses_nothing
+#print axioms SA.ReadAhead.C17_target_count_chunking_independent
+#print axioms SA.ReadAhead.C17_witness_bare_stream_loses_read_ahead
+#print axioms SA.ReadAhead.C17_handler_reads_through_wrapper
